@@ -237,6 +237,55 @@ func ZZ_C11_TimedGet() {
 	zzvf.Reach("timedget")
 }
 
+// the same for the double queue (its timed get is a separate polling loop): the element is in, or
+// arrives in, the first or the second queue; a server-time correction is in force
+//vf: cut=5 t.cut=8 paths=100000
+func ZZ_C11_TimedGetDouble() {
+	q := NewRequestDoubleQueue(zzvf.Choose(3), zzvf.Choose(3))
+	zzvf.SleepMayReturnEarly()
+	dateutil.SetDelta(int64(zzvf.IntRange(0, 200000)) - 100000)
+	defer dateutil.SetDelta(0)
+	timeout := zzvf.Int()
+	zzvf.Assume(timeout >= 0)
+	zzvf.Assume(timeout <= 100000)
+	mode := zzvf.Choose(3)
+	second := zzvf.Choose(2) == 1
+	v := zzvf.Int64()
+	put := func() {
+		if second {
+			q.PutForce2(v)
+		} else {
+			q.PutForce1(v)
+		}
+	}
+	switch mode {
+	case 1:
+		put()
+	case 2:
+		zzvf.OnWait(1, put) // a producer arrives during the first sleep
+	}
+	start := zzvf.ClockNow()
+	r := q.GetTimeout(timeout)
+	end := zzvf.ClockNow()
+	switch mode {
+	case 0:
+		zzvf.Assert(r == nil, "timedget-double/empty-returns-nil")
+		zzvf.Assert(end-start >= int64(timeout), "timedget-double/nil-only-after-timeout-elapsed")
+	case 1:
+		x, ok := zzUnbox(r)
+		zzvf.Assert(zzvf.And(ok, x == v), "timedget-double/present-element-returned")
+	case 2:
+		if r != nil {
+			x, ok := zzUnbox(r)
+			zzvf.Assert(zzvf.And(ok, x == v), "timedget-double/arriving-element-delivered")
+		} else {
+			zzvf.Assert(end-start >= int64(timeout), "timedget-double/nil-only-after-timeout-elapsed-with-producer")
+			zzvf.Assert(q.Size() <= 1, "timedget-double/late-element-stays-queued")
+		}
+	}
+	zzvf.Reach("timedget-double")
+}
+
 // blocking get with a consumer that blocks BEFORE the first producer arrives: the getter
 // re-evaluates emptiness after every wake-up (a spurious one first) and receives the element
 func ZZ_C11_BlockingGet() {
